@@ -43,6 +43,7 @@ type VerifC15Case struct {
 	Public   []string `json:"public"`   // http mode: publicNamespaces of the dataset
 	GetFirst bool     `json:"getfirst"` // http mode: a GET (entities and changes) right after dataset creation and again after the first POST
 	Pages    []string `json:"pages"`    // source mode: the documents one HTTPDatasetSource object reads, in order
+	Body2Txn bool     `json:"body2txn"` // http mode: the second POST goes to /transactions
 }
 
 type VerifC15Parse struct {
@@ -515,7 +516,11 @@ func (d *VerifC15Driver) runHTTP(c VerifC15Case, body []byte) *VerifC15Obs {
 		post2.Tokens, post2.EOF = verifC15Tokens(b2)
 		obs.Post2 = post2
 		var pb2 []byte
-		obs.Status2, pb2 = verifC15Do(e, http.MethodPost, "/datasets/"+names[0]+"/entities", b2)
+		if c.Body2Txn {
+			obs.Status2, pb2 = verifC15Do(e, http.MethodPost, "/transactions", b2)
+		} else {
+			obs.Status2, pb2 = verifC15Do(e, http.MethodPost, "/datasets/"+names[0]+"/entities", b2)
+		}
 		if obs.Status2 == 500 && !strings.Contains(string(pb2), "\"Internal Server Error\"") {
 			obs.Status2 = 599
 		}
